@@ -51,6 +51,14 @@ BPlusTree_init(BPlusTree *self, PyObject *args, PyObject *kwds) {
         return -1;
     }
     
+    if (capacity > UINT16_MAX) {
+        /* node layout stores capacity and key counts in uint16_t */
+        PyErr_Format(PyExc_ValueError,
+                     "capacity must be at most %d, got %d",
+                     UINT16_MAX, capacity);
+        return -1;
+    }
+
     self->capacity = capacity;
     self->min_keys = capacity / 2;
     
